@@ -700,7 +700,7 @@ def run(ctx):
     have_ph = os.path.exists(PH_FILE)
     ctx.extra["placeholder_creation_path"] = "explored" if have_ph else "skipped: %s not found" % PH_FILE
     _CFGS = make_cfgs(ctx.thorough, have_ph)
-    budget_s = float(os.environ.get("VERIF_C14_BUDGET_S", "600")) if ctx.thorough else 1e9
+    budget_s = float(os.environ.get("VERIF_C14_BUDGET_S", "900")) if ctx.thorough else 1e9
     t0 = time.time()
 
     seen = {}
